@@ -42,10 +42,14 @@ type WrapCase struct {
 	Kind string `json:"kind"`
 	Code int    `json:"code,omitempty"`
 	Err  string `json:"err,omitempty"`
-	Opt  bool   `json:"opt,omitempty"` // sqlx: WithAcceptable option present
+	Opt  bool   `json:"opt,omitempty"`  // sqlx: WithAcceptable option present; registry-nobreaker: the name had a throttling breaker before
+	Form string `json:"form,omitempty"` // sqlx-form: the query form of sqlconn.go (wrap2.go)
 }
 
 func (c WrapCase) String() string {
+	if c.Form != "" {
+		return fmt.Sprintf("%s form=%s code=%d err=%q opt=%v", c.Kind, c.Form, c.Code, c.Err, c.Opt)
+	}
 	return fmt.Sprintf("%s code=%d err=%q opt=%v", c.Kind, c.Code, c.Err, c.Opt)
 }
 
@@ -626,6 +630,9 @@ func runWrapCase(c WrapCase) *fail {
 	case "sqlx":
 		return sqlCase(c.Err, c.Code, c.Opt)
 	}
+	if f, ok := runWrapCase2(c); ok {
+		return f
+	}
 	return &fail{"bad-case", "unknown wrapper " + c.Kind}
 }
 
@@ -661,6 +668,7 @@ func wrapCases() []WrapCase {
 		}
 	}
 	cs = append(cs, WrapCase{Kind: "sqlx", Err: "nil", Code: 3}, WrapCase{Kind: "sqlx", Err: "nil", Code: 4})
+	cs = append(cs, wrapCases2()...)
 	return cs
 }
 
